@@ -56,8 +56,9 @@ def _block(args):
 
 
 def write_replay(prop, seed, cfg, events, sig, digest, detail, execs):
-    os.makedirs(os.path.join(VERIF_DIR, "replays"), exist_ok=True)
-    path = os.path.join(VERIF_DIR, "replays", "%s-%d.json" % (prop, seed))
+    rdir = os.environ.get("VERIF_REPLAY_DIR") or os.path.join(VERIF_DIR, "replays")
+    os.makedirs(rdir, exist_ok=True)
+    path = os.path.join(rdir, "%s-%d.json" % (prop, seed))
     with open(path, "w") as f:
         json.dump({"property": prop, "seed": seed, "cfg": cfg, "events": events, "expected_signature": sig,
                    "digest": digest, "detail": detail, "minimisation_executions": execs}, f, indent=1,
@@ -252,7 +253,7 @@ def batch(sim_cls, tier: str, base_seed: int, runs: int = None, workers: int = N
         "unminimised_violation_runs": len(viol),
         "harness_errors": harness_errors[:5],
     }
-    if write_evidence:
+    if write_evidence and not os.environ.get("VERIF_NO_EVIDENCE"):
         os.makedirs(os.path.join(VERIF_DIR, "evidence"), exist_ok=True)
         with open(os.path.join(VERIF_DIR, "evidence", prop + ".json"), "w") as f:
             json.dump(ev, f, indent=1, default=engine.canon)
